@@ -115,6 +115,7 @@ func Flatten(opts FlattenOpts) error {
 	if err := expand(&opts); err != nil {
 		return err
 	}
+	verifEmit("phase.expand", opts.Swagger())
 
 	// 2. Strip the current document from absolute $ref's that actually a in the root,
 	// so we can recognize them as proper definitions
@@ -123,6 +124,7 @@ func Flatten(opts FlattenOpts) error {
 	if err := normalizeRef(&opts); err != nil {
 		return err
 	}
+	verifEmit("phase.normalize", opts.Swagger())
 
 	// 3. Optionally remove shared parameters and responses already expanded (now unused).
 	//
@@ -130,11 +132,13 @@ func Flatten(opts FlattenOpts) error {
 	if opts.RemoveUnused {
 		removeUnusedShared(&opts)
 	}
+	verifEmit("phase.dropShared", opts.Swagger())
 
 	// 4. Import all remote references.
 	if err := importReferences(&opts); err != nil {
 		return err
 	}
+	verifEmit("phase.import", opts.Swagger())
 
 	// 5. full flattening: rewrite inline schemas (schemas that aren't simple types or arrays or maps)
 	if !opts.Minimal && !opts.Expand {
@@ -142,17 +146,20 @@ func Flatten(opts FlattenOpts) error {
 			return err
 		}
 	}
+	verifEmit("phase.nameInline", opts.Swagger())
 
 	// 6. Rewrite JSON pointers other than $ref to named definitions
 	// and attempt to resolve conflicting names whenever possible.
 	if err := stripPointersAndOAIGen(&opts); err != nil {
 		return err
 	}
+	verifEmit("phase.strip", opts.Swagger())
 
 	// 7. Strip the spec from unused definitions
 	if opts.RemoveUnused {
 		removeUnused(&opts)
 	}
+	verifEmit("phase.removeUnused", opts.Swagger())
 
 	// 8. Issue warning notifications, if any
 	opts.croak()
@@ -224,6 +231,7 @@ func importReferences(opts *FlattenOpts) error {
 		imported, err = importExternalReferences(opts)
 
 		opts.Spec.reload() // re-analyze
+		verifEmit("round.import", opts.Swagger())
 	}
 
 	return err
@@ -297,6 +305,7 @@ func removeUnusedSinglePass(opts *FlattenOpts) (hasRemoved bool) {
 	}
 
 	opts.Spec.reload() // re-analyze
+	verifEmit("round.removeUnused", opts.Swagger())
 
 	return hasRemoved
 }
@@ -305,6 +314,7 @@ func importKnownRef(entry sortref.RefRevIdx, refStr, newName string, opts *Flatt
 	// rewrite ref with already resolved external ref (useful for cyclical refs):
 	// rewrite external refs to local ones
 	debugLog("resolving known ref [%s] to %s", refStr, newName)
+	verifEmit("import.known", opts.Swagger(), refStr, newName, strings.Join(entry.Keys, "\x00"))
 
 	for _, key := range entry.Keys {
 		if err := replace.UpdateRef(opts.Swagger(), key, spec.MustCreateRef(path.Join(definitionsPath, newName))); err != nil {
@@ -376,6 +386,7 @@ func importNewRef(entry sortref.RefRevIdx, refStr string, opts *FlattenOpts) err
 
 	// add the resolved schema to the definitions
 	schutils.Save(opts.Swagger(), newName, sch)
+	verifEmit("import.new", opts.Swagger(), refStr, newName, strings.Join(entry.Keys, "\x00"))
 
 	return nil
 }
@@ -533,6 +544,7 @@ func stripOAIGen(opts *FlattenOpts) (bool, error) {
 
 	debugLog("replacedWithComplex: %t", replacedWithComplex)
 	opts.Spec.reload() // re-analyze
+	verifEmit("round.stripOAIGen", opts.Swagger())
 
 	return replacedWithComplex, nil
 }
@@ -565,6 +577,7 @@ func stripOAIGenForRef(opts *FlattenOpts, k string, r *newRef) (bool, error) {
 	replacedWithComplex := false
 
 	pr := sortref.TopmostFirst(r.parents)
+	verifEmit("strip.one", opts.Swagger(), k, r.path, strings.Join(pr, "\x00"))
 
 	// rewrite first parent schema in hierarchical then lexicographical order
 	debugLog("rewrite first parent %s with schema", pr[0])
@@ -721,6 +734,7 @@ func namePointers(opts *FlattenOpts) error {
 			if err := replace.UpdateRef(opts.Swagger(), key, v.Ref); err != nil {
 				return err
 			}
+			verifEmit("pointer.top", opts.Swagger(), key, v.Ref.String())
 
 			continue
 		}
@@ -731,6 +745,7 @@ func namePointers(opts *FlattenOpts) error {
 	}
 
 	opts.Spec.reload() // re-analyze
+	verifEmit("round.namePointers", opts.Swagger())
 
 	return nil
 }
@@ -790,6 +805,7 @@ func flattenAnonPointer(key string, v SchemaRef, refsToReplace map[string]Schema
 		if err := namer.Name(v.Ref.String(), v.Schema, asch); err != nil {
 			return err
 		}
+		verifEmit("pointer.named", opts.Swagger(), key, v.Ref.String())
 
 		// regular case: we named the $ref as a definition, and we move all callers to this new $ref
 		for _, caller := range callers {
@@ -814,6 +830,7 @@ func flattenAnonPointer(key string, v SchemaRef, refsToReplace map[string]Schema
 		return err
 	}
 	// NOTE: there is no other caller to update
+	verifEmit("pointer.expanded", opts.Swagger(), key, v.Ref.String())
 
 	return nil
 }
